@@ -2,6 +2,7 @@
     Model: Model/CacheX.v ([serveX]/[runX]: kvarn::handle_cache with streams, body sizes, the status filter, override
     URIs and the repaired code paths); [_refuted]: witnesses on the model of the code before a repair. *)
 From KV Require Import Bytes RustInt Range CacheControl Cache CacheProofs Fixture CacheX CacheXProofs CacheXWitness CacheKey CacheKeyProofs.
+From KV Require Import RuleSet CacheRules CacheRulesProofs.
 Open Scope N_scope.
 
 Section C03.
@@ -81,6 +82,22 @@ Theorem query_start_needed :
   fst (path_query r) = fst (path_query r') /\ key_eqb_string_only (key_pq r) (key_pq r') = true /\
   key_eqb (key_pq r) (key_pq r') = false /\ rq_path r <> rq_path r'.
 Proof. exact query_start_needed_w. Qed.
+
+(** The key is made from the RAW path ([Uri::path]), the path kvarn routes on: an entry stored under either key of one
+    URI is found with either key of another only if the two raw paths are the same bytes — different percent-spellings
+    of one decoded path ("/page", "/p%61ge") never share an entry. *)
+Theorem key_is_raw_path : forall (r r' : request) (k k' : key),
+  In k [key_pq r; key_p r] -> In k' [key_pq r'; key_p r'] -> key_eqb k k' = true -> rq_path r = rq_path r'.
+Proof. exact key_is_raw_path_x. Qed.
+
+(** ... and decoding the path in the key (the seeded change C03-6) merges requests the routing tells apart *)
+Theorem decoded_key_collides_refuted :
+  let r := rq_get (B "/page") None in let r' := rq_get (B "/p%61ge") None in
+  rq_path r <> rq_path r' /\
+  key_eqb (key_pq_decoded r) (key_pq_decoded r') = true /\ key_eqb (key_p_decoded r) (key_p_decoded r') = true /\
+  key_eqb (key_pq r) (key_pq r') = false /\ key_eqb (key_p r) (key_p r') = false /\
+  w9_status (rq_path r) = 200 /\ w9_status (rq_path r') = 404.
+Proof. exact decoded_key_collides_refuted_w. Qed.
 
 Example c03_ex_keys_apart :
   key_eqb (key_pq (rq_get (B "/x/y") (Some (B "z=1")))) (key_pq (rq_get (B "/x/yz=1") None)) = false /\
@@ -164,3 +181,39 @@ Example c03_ex_repaired_override :
   bodies (run_cfgx true (mkCfgX (cx_base w3_cx) [] 0 (cx_ovprime w3_cx) true true true true true true) (w3_ops ++ w3_ops)) =
   bodies (run_cfgx false (mkCfgX (cx_base w3_cx) [] 0 (cx_ovprime w3_cx) true true true true true true) (w3_ops ++ w3_ops)).
 Proof. vm_compute. reflexivity. Qed.
+
+(** ---- the vary rules of a cached page ([Vary::rules_from_path] = [RuleSet::get], C14) ----
+    The model ([rules_for_x], used by [vary_tuple_x] / [vary_header_x] for the path of the URI the response is cached
+    under — after the rewriting Primes, the internal route if a Prime overrode the URI) applies the rules of the
+    independent resolver of C14: of the patterns added to the host's rule set that cover the path, the most specific
+    one, with the rules added last for it. *)
+Theorem vary_rules_most_specific : forall (rules : list (bytes * list vrule)) (p : bytes),
+  rules_for_x p rules = rules_or_none (resolve rules p).
+Proof. exact rules_for_x_resolve. Qed.
+
+(** an exact rule for the path wins against every pattern that covers the path too, whatever their lengths ... *)
+Theorem vary_exact_rule_wins : forall (rules : list (bytes * list vrule)) (p : bytes) (rs : list vrule),
+  is_wild p = false -> last_added rules p = Some rs -> rules_for_x p rules = rs.
+Proof. exact exact_rule_wins. Qed.
+
+(** ... and without one the longest pattern that covers it *)
+Theorem vary_longest_pattern_wins : forall (rules : list (bytes * list vrule)) (p q : bytes) (rs : list vrule),
+  (forall x, In x (map fst rules) -> covers x p = true -> is_wild x = true /\ (length x <= length q)%nat) ->
+  is_wild q = true -> covers q p = true -> last_added rules q = Some rs -> rules_for_x p rules = rs.
+Proof. exact longest_pattern_wins. Qed.
+
+(** the seeded change C03-7 (rule set sorted by length first): the pattern "/lang*" shadows the exact rule "/lang", and
+    the two x-w variants of the page get one tuple *)
+Theorem length_first_shadows_exact_refuted :
+  rules_for_x (B "/lang") w8_rules = [(B "x-w", 0, B "dw")] /\
+  rules_for_len_first (B "/lang") w8_rules = [(B "x-v", 0, B "dv")] /\
+  tuple_of_rules (rules_for_x (B "/lang") w8_rules) (w8_req (B "sv")) <> tuple_of_rules (rules_for_x (B "/lang") w8_rules) (w8_req (B "en")) /\
+  tuple_of_rules (rules_for_len_first (B "/lang") w8_rules) (w8_req (B "sv")) =
+  tuple_of_rules (rules_for_len_first (B "/lang") w8_rules) (w8_req (B "en")).
+Proof. exact length_first_shadows_exact_refuted_w. Qed.
+
+Example c03_ex_rules :
+  rules_for_x (B "/lang") [(B "/lang*", [(B "x-v", 0, B "dv")]); (B "/lang", [(B "x-w", 0, B "dw")]); (B "/*", [])] = [(B "x-w", 0, B "dw")] /\
+  rules_for_x (B "/language") [(B "/lan*", []); (B "/lang*", [(B "x-v", 0, B "dv")]); (B "/lang", [(B "x-w", 0, B "dw")])] = [(B "x-v", 0, B "dv")] /\
+  rules_for_x (B "/other") [(B "/lang*", [(B "x-v", 0, B "dv")]); (B "/lang", [(B "x-w", 0, B "dw")])] = [].
+Proof. vm_compute. repeat split. Qed.
